@@ -395,7 +395,7 @@ func checkMain(args []string) int {
 		}
 	}
 	sort.Strings(order)
-	outDir := filepath.Join(verifRoot(), "out", "replay")
+	outDir := filepath.Join(outRoot(), "out", "replay")
 	os.MkdirAll(outDir, 0o755)
 	violations := 0
 	knownHits := 0
@@ -427,7 +427,7 @@ func checkMain(args []string) int {
 					continue
 				}
 				c := replayCase{Entry: g.entry.spec.Func, Values: f.Values, Choices: f.Choices, Params: g.entry.params}
-				wd := filepath.Join(verifRoot(), "out", "work", fmt.Sprintf("%s-%d", prop, gi))
+				wd := filepath.Join(outRoot(), "out", "work", fmt.Sprintf("%s-%d", prop, gi))
 				outs, raw, _ := nativeRun(nat, g.entry.spec.Pkg, []replayCase{c}, f.Kind == "race" || g.entry.spec.Race, wd, 120*time.Second)
 				ok, note := judgeReplay(f, outs[0], raw)
 				replayNote = note
@@ -519,7 +519,7 @@ func checkMain(args []string) int {
 			for _, p := range pick {
 				cases = append(cases, replayCase{Entry: r.spec.Func, Values: p.WitnessVals, Choices: p.Choices, Params: r.params})
 			}
-			wd := filepath.Join(verifRoot(), "out", "work", fmt.Sprintf("%s-concolic-%s", prop, r.spec.Func))
+			wd := filepath.Join(outRoot(), "out", "work", fmt.Sprintf("%s-concolic-%s", prop, r.spec.Func))
 			outs, raw, _ := nativeRun(nat, r.spec.Pkg, cases, false, wd, 300*time.Second)
 			for i, p := range pick {
 				want := expectedLines(p)
